@@ -3,6 +3,7 @@ import Holpy.C19.Model
 import Holpy.C19.Parser
 import Holpy.C19.Linearity
 import Holpy.C19.Rules
+import Holpy.C19.Rules2
 /-
 Line protocol for the C19 model (one s-expression in, one out).
 
@@ -19,6 +20,9 @@ Line protocol for the C19 model (one s-expression in, one out).
   (subst U G Q T|F EXPR) -> EXPR                          Substitution(U, G).eval with recorded normalize result Q, swap flag
   (parts U V EXPR)      -> EXPR                           IntegrationByParts(U, V).eval once accepted
   (ftc F EXPR)          -> EXPR                           INT x:[a,b]. f ~> [F]_x=a,b
+  (equation OLD NEW T|F EXPR) -> (ok EXPR) | raises      Equation(OLD, NEW).eval; flag = acceptance test succeeded
+  (substinv U H LO HI T|F EXPR) -> EXPR                   SubstitutionInverse(U, H).eval with computed bounds, swap flag
+  (getcoeff L NE) -> EXPR     (ibe L NE C) -> EXPR        IntegrateByEquation: get_coeff, result before normalize
   (isqrt I) (iexp I) (ilog I) -> SIVAL = (SB SB T|F T|F), SB = -oo | oo | (NUM DEN) | (app NAME NUM DEN)
   (icontained I J) -> T|F        (iinter I J) -> IVAL
   (iadd I J) (isub I J) (ineg I) (imul I J) (iinv I) (idiv I J) (ipow I N) -> IVAL | raises
@@ -135,6 +139,25 @@ def handle (line : String) : String :=
     match exprOf g, exprOf q, sw.toBool?, exprOf e with
     | some g, some q, some sw, some e => toString (exprTo (substM (decAtom u) g q sw e))
     | _, _, _, _ => "bad-op"
+  | some (.list [.atom "equation", o, n, acc, e]) =>
+    match exprOf o, exprOf n, acc.toBool?, exprOf e with
+    | some o, some n, some acc, some e =>
+      match equationM o n acc e with
+      | some r => toString (Sexp.list [.atom "ok", exprTo r])
+      | none => "raises"
+    | _, _, _, _ => "bad-op"
+  | some (.list [.atom "substinv", .atom u, h, lo, hi, sw, e]) =>
+    match exprOf h, exprOf lo, exprOf hi, sw.toBool?, exprOf e with
+    | some h, some lo, some hi, some sw, some e => toString (exprTo (substInvM (decAtom u) h lo hi sw e))
+    | _, _, _, _, _ => "bad-op"
+  | some (.list [.atom "getcoeff", l, ne]) =>
+    match exprOf l, exprOf ne with
+    | some l, some ne => toString (exprTo (getCoeff l ne))
+    | _, _ => "bad-op"
+  | some (.list [.atom "ibe", l, ne, c]) =>
+    match exprOf l, exprOf ne, exprOf c with
+    | some l, some ne, some c => toString (exprTo (ibeM l ne c))
+    | _, _, _ => "bad-op"
   | some (.list [.atom "parts", u, v, e]) =>
     match exprOf u, exprOf v, exprOf e with
     | some u, some v, some e => toString (exprTo (partsM u v e))
